@@ -5,7 +5,7 @@ import numpy as np
 from .common import Acc, intercept, result, search_result
 
 ID = "C40"
-LEAN_MODULES = ["MjwVerif.Props.C40", "MjwVerif.Props.C40Witness"]
+LEAN_MODULES = ["MjwVerif.Props.C40"]
 GEN_FUNCS = ["collision_flex._flex_element_aabb_filter", "collision_flex._mix_flex_contact_params", "collision_flex._write_candidate", "collision_flex._inside_triangle",
              "collision_flex._exclude_self_collision", "collision_flex._get_element_vertices", "collision_flex._elem_active", "collision_flex._tie_break_fps",
              "collision_flex._flex_broadphase_bounds", "collision_flex._flex_broadphase__kernel", "collision_flex._flex_broadphase_plane__kernel", "collision_flex._flex_sap_project",
@@ -17,13 +17,13 @@ KERNELS = ["collision_flex._flex_broadphase_bounds", "collision_flex._flex_broad
            "collision_flex._write_filtered_contacts__kernel", "collision_flex._populate_active_sorted", "collision_flex._populate_group_starts__kernel", "collision_flex._filter_flex_fps",
            "constraint._equality_flex__kernel"]
 LEVEL_TEXT = ("Theorems about the flex functions/kernels regenerated from collision_flex.py / constraint.py / support.py / passive.py on every run: the AABB filters (`_flex_element_aabb_filter`, "
-              "`_flex_broadphase_bounds`, the plane cull of `_flex_broadphase_plane`, `_flex_sap_project`) never discard an overlapping pair; `_inside_triangle` decides the barycentric coordinates of the "
+              "`_flex_broadphase_bounds`, the plane cull of `_flex_broadphase_plane`) never discard an overlapping pair; `_inside_triangle` decides the barycentric coordinates of the "
               "orthogonal projection; `_mix_flex_contact_params` is MuJoCo's priority / solmix mixing rule (friction floor 1e-5, condim max, gap sum); `_exclude_self_collision` is true iff the two "
               "elements share a vertex or a vertex body; `_tie_break_fps` is a strict lexicographic order; exact write lists of `_write_candidate` (the (geom, flex, elem, vert) encodings) and of the "
-              "guards of `_write_filtered_contacts` and `_equality_flex` (row pos = length - length0); the trilinear basis is a non-negative partition of unity with linear precision; "
-              "`_apply_face_forces` applies zero net force. Stage 3 of `_flex_broadphase` is sound for sphere/box/mesh/ellipsoid and UNSOUND for capsule and cylinder (witness). Flex positions, edge "
+              "guards of `_write_filtered_contacts` (incl. the includemargin rule) and `_equality_flex`; the trilinear basis is a non-negative partition of unity with linear precision; "
+              "`_apply_face_forces` applies zero net force. Stage 3 of `_flex_broadphase` (geom centre vs triangle plane against the bounding radius) is sound for every supported geom type, and the bounding radius dominates the geom; a row of `_equality_flex` dropped for lack of njmax_nnz gets rownnz 0. Flex positions, edge "
               "lengths/velocities, passive forces, edge-equality rows and contacts of the real code are compared with mujoco.mj_forward (sampled).")
-LEVEL_NOTE = ("C40_partial: smooth._flex_vertices/_flex_nodes/_flex_edges and passive._flex_elasticity/_flex_bending are NOT in Gen (the translator rejects the `for f in range(nflex): ... break` idiom whose "
+LEVEL_NOTE = ("C40_partial: two defects found by this check were repaired in /repo (\"fix: _flex_bending read flex_bending out of bounds for interpolated (trilinear) shells\", \"fix: flex broadphase culled real capsule and cylinder contacts (wrong bounding radius)\"; their trigger inputs run first as regression cases); still present and reported as findings: <edge stiffness/damping> forces missing, 3D flex vs ellipsoid and 1D flex element contacts missing, flex gap semantics, spring force of 1D interpolated flexes. smooth._flex_vertices/_flex_nodes/_flex_edges and passive._flex_elasticity/_flex_bending are NOT in Gen (the translator rejects the `for f in range(nflex): ... break` idiom whose "
               "loop variable is used after the loop), the element narrowphase kernels (EPA workspace) neither; they are covered by the differential oracle only. Trusted: Lean kernel + Mathlib, translator.")
 ASSUMPTIONS = ["float32 tolerances: positions/lengths 1e-4 relative, forces 5e-3 relative to the largest reference entry", "flexedge_velocity / flexedge_length compared only where MuJoCo computes them "
                "(C skips edge quantities of interpolated flexes and velocities of flexes without edge equality/damping)",
@@ -88,7 +88,7 @@ def gen_model(rng):
   if rng.random() < 0.15:
     cs += f' contype="{int(rng.integers(0, 4))}" conaffinity="{int(rng.integers(0, 4))}"'
   if dim == 3 and rng.random() < 0.2:
-    cs += f' activelayers="{int(rng.integers(0, 3))}"'
+    cs += f' activelayers="{int(rng.integers(1, 4))}"'   # activelayers="0" segfaults the MuJoCo 3.13 compiler
   sub.append(cs + "/>")
   feat.update(selfcollide=sc, internal=bool(internal))
   if rng.random() < 0.3:
@@ -123,6 +123,21 @@ def gen_model(rng):
   return xml, feat
 
 
+_SHELL = ('<mujoco><option gravity="0 0 0"/><worldbody><flexcomp name="F" type="grid" dim="2" count="4 4 1" spacing=".1 .1 .1" radius=".01" mass="1" pos="0 0 1" '
+          'quat="0.37317 0.25384 0.12587 0.88344" dof="trilinear"><elasticity young="1e4" poisson="0.2" thickness="0.02" elastic2d="{e2}"/><contact selfcollide="none"/></flexcomp></worldbody></mujoco>')
+_TRI = ('<mujoco><worldbody><geom type="{gt}" size="{size}" pos="0.02 0.01 0.93" euler="10 20 30"/><flexcomp name="F" type="grid" dim="2" count="3 3 1" spacing=".1 .1 .1" radius=".01" '
+        'mass="1" pos="0 0 1"><contact selfcollide="none"/></flexcomp></worldbody></mujoco>')
+# trigger inputs of the repaired defects (run first, must pass): (xml, features, qpos perturbation, qvel scale)
+REGRESSION = [
+  # "fix: _flex_bending read flex_bending out of bounds for interpolated (trilinear) shells": a stretch shell first (leaves non-zero heap behind), then the bending shell
+  (_SHELL.format(e2="none"), {"dim": 2, "dof": "trilinear", "selfcollide": "none", "edgeeq": False, "elasticity": True, "geoms": [], "regression": "shell-none"}, 0.01, 0.5),
+  (_SHELL.format(e2="bend"), {"dim": 2, "dof": "trilinear", "selfcollide": "none", "edgeeq": False, "elasticity": True, "geoms": [], "regression": "shell-bend"}, 0.01, 0.5),
+  # "fix: flex broadphase culled real capsule and cylinder contacts (wrong bounding radius)"
+  (_TRI.format(gt="cylinder", size=".04 .06"), {"dim": 2, "dof": "full", "selfcollide": "none", "edgeeq": False, "elasticity": False, "geoms": ["cylinder"], "regression": "cylinder"}, 0.0, 0.0),
+  (_TRI.format(gt="capsule", size=".02 .08"), {"dim": 2, "dof": "full", "selfcollide": "none", "edgeeq": False, "elasticity": False, "geoms": ["capsule"], "regression": "capsule"}, 0.0, 0.0),
+]
+
+
 def _contacts_c(mjd):
   rows = []
   for c in mjd.contact[: mjd.ncon]:
@@ -142,7 +157,8 @@ def _contacts_w(d):
 
 
 def _is_flex(r):
-  return r["flex"][0] >= 0 or r["flex"][1] >= 0
+  # a contact with a side that is not a geom (rigid contacts of mujoco_warp may carry STALE flex/elem/vert fields, see `stale-flex-fields`)
+  return r["geom"][0] < 0 or r["geom"][1] < 0
 
 
 def _run(ctx, ncases, rec):
@@ -151,20 +167,24 @@ def _run(ctx, ncases, rec):
   rng = np.random.default_rng(ctx.seed * 1000 + 40)
   acc = Acc()
 
-  def one(c):
-    xml, feat = gen_model(rng)
+  def one(c, fixed=None):
+    if fixed is None:
+      xml, feat = gen_model(rng)
+      pert, vel = 0.01, 0.5
+    else:
+      xml, feat, pert, vel = fixed
     try:
       mjm = mujoco.MjModel.from_xml_string(xml)
     except ValueError as e:
       acc.hit("mjcf-rejected:" + str(e).split("\n")[0][:48])
       return
     mjd = mujoco.MjData(mjm)
-    mjd.qpos[:] = mjm.qpos0 + 0.01 * rng.standard_normal(mjm.nq)
+    mjd.qpos[:] = mjm.qpos0 + pert * rng.standard_normal(mjm.nq)
     for j in range(mjm.njnt):
       if mjm.jnt_type[j] == 0:
         a = mjm.jnt_qposadr[j]
         mjd.qpos[a + 3: a + 7] /= np.linalg.norm(mjd.qpos[a + 3: a + 7])
-    mjd.qvel[:] = 0.5 * rng.standard_normal(mjm.nv)
+    mjd.qvel[:] = vel * rng.standard_normal(mjm.nv)
     mujoco.mj_forward(mjm, mjd)
     replay = dict(xml=xml, qpos=mjd.qpos.tolist(), qvel=mjd.qvel.tolist())
     try:
@@ -175,7 +195,7 @@ def _run(ctx, ncases, rec):
     except ValueError as e:
       acc.hit("put_model-rejected:" + str(e)[:40])
       return
-    d = mjw.put_data(mjm, mjd, nworld=1, naconmax=3000, njmax=6000)
+    d = mjw.put_data(mjm, mjd, nworld=1, naconmax=1500, njmax=4000)
     mjw.forward(m, d)
     acc.evals += 1
     tag = f"dim{feat['dim']}-{feat['dof']}"
@@ -216,13 +236,27 @@ def _run(ctx, ncases, rec):
     for name, a, b in (("qfrc_spring", d.qfrc_spring.numpy()[0], mjd.qfrc_spring), ("qfrc_damper", d.qfrc_damper.numpy()[0], mjd.qfrc_damper), ("qfrc_passive", d.qfrc_passive.numpy()[0], mjd.qfrc_passive)):
       bad, mx = differs(a, b, 5e-3, 5e-3)
       if bad:
-        if (mjm.flex_edgestiffness[0] != 0 or mjm.flex_edgedamping[0] != 0):
-          trig = "edge-stiffness-damping-ignored"
-        elif interp < 0 and mjm.flex_bendingadr[0] >= 0:
-          trig = "interp-shell-flex_bending-out-of-bounds"
+        # classify by BEHAVIOUR: is the difference of the total passive force exactly the edge spring/damper term J^T(-k (L - L0) - b dL/dt) of mj_passive?
+        res = np.asarray(mjd.qfrc_passive, dtype=np.float64) - d.qfrc_passive.numpy()[0].astype(np.float64)
+        edge = np.zeros(mjm.nv)
+        Jv, col = np.asarray(mjd.flexedge_J).reshape(-1), np.asarray(mjm.flexedge_J_colind).reshape(-1)
+        for f_ in range(mjm.nflex):
+          for e in range(int(mjm.flex_edgeadr[f_]), int(mjm.flex_edgeadr[f_] + mjm.flex_edgenum[f_])):
+            fe = -mjm.flex_edgestiffness[f_] * (mjd.flexedge_length[e] - mjm.flexedge_length0[e]) - mjm.flex_edgedamping[f_] * mjd.flexedge_velocity[e]
+            a0 = int(mjm.flexedge_J_rowadr[e])
+            for t in range(int(mjm.flexedge_J_rownnz[e])):
+              edge[col[a0 + t]] += Jv[a0 + t] * fe
+        if np.abs(edge).max() > 0 and np.allclose(res, edge, rtol=5e-3, atol=5e-3 * (1 + np.abs(edge).max())):
+          trig = "edge-spring-damper-missing"
+          what = (f"{name} differs from mj_forward by exactly the flex EDGE spring/damper force J^T(-k (L - L0) - b dL/dt) of mj_passive (max {np.abs(edge).max():.3g}): "
+                  f"<edge stiffness/damping> is ignored ({tag})")
+        elif np.abs(b).max() == 0 and np.nanmax(np.abs(a)) > 1e-3:
+          trig = "spring-force-where-mujoco-has-none"
+          what = f"{name} is non-zero (max {np.nanmax(np.abs(a)):.3g}) where mj_forward gives exactly 0 ({tag}, {feat})"
         else:
           trig = "passive-vs-mujoco"
-        acc.find(f"{name} differs from mj_forward (max |d| {mx:.3g}, reference max {np.abs(b).max():.3g}; {tag}, {feat})", "passive.passive", trig, **replay)
+          what = f"{name} differs from mj_forward (max |d| {mx:.3g}, reference max {np.abs(b).max():.3g}; {tag}, {feat})"
+        acc.find(what, "passive.passive", trig, **replay)
         break
     # 3. edge equality rows
     n = int(d.nefc.numpy()[0])
@@ -237,10 +271,25 @@ def _run(ctx, ncases, rec):
       acc.hit("edge-equality-rows-compared")
     # 4. contacts
     cc = [r for r in _contacts_c(mjd) if _is_flex(r)]
-    cw = [r for r in _contacts_w(d) if _is_flex(r)]
+    allw = _contacts_w(d)
+    cw = [r for r in allw if _is_flex(r)]
+    stale = [r for r in allw if not _is_flex(r) and (r["flex"] != (-1, -1) or r["elem"] != (-1, -1) or r["vert"] != (-1, -1))]
+    if stale:
+      r = stale[0]
+      acc.find(f"rigid contact geom {r['geom']} reports flex {r['flex']} elem {r['elem']} vert {r['vert']} (MuJoCo: all -1): the rigid contact writer leaves the flex fields of a reused "
+               f"slot untouched ({len(stale)} contacts)", "collision_core.write_contact", "stale-flex-fields", **replay)
     gt = mjm.geom_type
-    pc = sorted([r for r in cc if r["geom"][0] >= 0 and gt[r["geom"][0]] == 0], key=lambda r: (r["geom"], r["vert"]))
-    pw = sorted([r for r in cw if r["geom"][0] >= 0 and gt[r["geom"][0]] == 0], key=lambda r: (r["geom"], r["vert"]))
+    vadr = int(mjm.flex_vertadr[0])
+
+    def static_pair(r):   # vertex welded to the world against a world plane: C lists the (dynamically void) contact, mujoco_warp filters it
+      v = r["vert"][1]
+      return v >= 0 and mjm.body_weldid[mjm.flex_vertbodyid[vadr + v]] == 0 and mjm.body_weldid[mjm.geom_bodyid[r["geom"][0]]] == 0
+    pc_all = [r for r in cc if r["geom"][0] >= 0 and gt[r["geom"][0]] == 0]
+    # C detects flex contacts up to margin + gap and stores includemargin = margin: only its ACTIVE contacts (dist < includemargin) are comparable
+    pc = sorted([r for r in pc_all if r["dist"] < r["im"] and not static_pair(r)], key=lambda r: (r["geom"], r["vert"]))
+    pw = sorted([r for r in cw if r["geom"][0] >= 0 and gt[r["geom"][0]] == 0 and not static_pair(r)], key=lambda r: (r["geom"], r["vert"]))
+    if len(pc) != len(pc_all):
+      acc.hit("plane-vertex: C-inactive (gap band) or static-static contacts set aside")
     if [(r["geom"], r["flex"], r["vert"]) for r in pc] != [(r["geom"], r["flex"], r["vert"]) for r in pw]:
       acc.find(f"plane-vertex flex contacts differ from MuJoCo: C {len(pc)} vs {len(pw)} ({tag})", "collision_flex._flex_plane_narrowphase", "plane-vertex-set", **replay)
     else:
@@ -249,8 +298,9 @@ def _run(ctx, ncases, rec):
           acc.find(f"plane-vertex flex contact geometry differs (dist {a['dist']:.6g} vs {b['dist']:.6g})", "collision_flex._flex_plane_narrowphase", "plane-vertex-geometry", **replay)
           break
         if a["dim"] != b["dim"] or abs(a["im"] - b["im"]) > 1e-6 or np.abs(a["fri"] - b["fri"]).max() > 1e-6 or np.abs(a["solref"] - b["solref"]).max() > 1e-6 or np.abs(a["solimp"] - b["solimp"]).max() > 1e-6:
+          only_im = a["dim"] == b["dim"] and np.abs(a["fri"] - b["fri"]).max() <= 1e-6 and np.abs(a["solref"] - b["solref"]).max() <= 1e-6 and np.abs(a["solimp"] - b["solimp"]).max() <= 1e-6
           acc.find(f"plane-vertex flex contact parameters differ (dim {a['dim']}/{b['dim']}, includemargin {a['im']:.4g}/{b['im']:.4g}, friction {a['fri'][:1]}/{b['fri'][:1]})",
-                   "collision_flex._write_filtered_contacts", "contact-params", **replay)
+                   "collision_flex._write_filtered_contacts", "plane-includemargin-gap" if only_im else "contact-params", **replay)
           break
       if pc:
         acc.hit("plane-vertex-contacts-compared")
@@ -288,11 +338,14 @@ def _run(ctx, ncases, rec):
     acc.sample({"features": {k: v for k, v in feat.items()}, "nv": int(mjm.nv), "ncon_C": int(mjd.ncon), "ncon_W": len(_contacts_w(d))})
 
   def scenario():
+    for k, fx in enumerate(REGRESSION):
+      one(-1 - k, fixed=fx)
+      acc.hit("regression-case")
     for c in range(ncases):
       one(c)
 
   if rec:
-    kc, _ = intercept(KERNELS, scenario, rng, max_tids=12, per_kernel=2, replay_allocs=True)
+    kc, _ = intercept(KERNELS, scenario, rng, max_tids=12, per_kernel=2, replay_allocs=bool(ctx.thorough))   # serial allocation replay costs minutes
   else:
     scenario()
     kc = None
@@ -311,7 +364,7 @@ def correspondence(ctx):
   fc = func_corr.run(FUNCS, ncases=96 if ctx.thorough else 32, seed=ctx.seed,
                      int_ranges={"collision_flex._mix_flex_contact_params": (0, 3), "support.flex_phi": (0, 2), "support.flex_dphi": (0, 2), "support.dphi2D": (0, 1), "support._phi": (0, 1),
                                  "support.eval_basis_trilinear": (0, 7)})
-  acc, kc = _run(ctx, 40 if ctx.thorough else 9, True)
+  acc, kc = _run(ctx, 60 if ctx.thorough else 14, True)
   return result(acc, RULE, kc=kc, fc=fc)
 
 
